@@ -25,16 +25,43 @@ import (
 
 const stopEnumK = 900
 
-var stopEnumSystems = [...]string{"nbtns.Server/udp", "nbtns.UDPServer/udp", "nbtns.TCPServer/tcp", "llmnr.Server", "llmnr.Client", "llmnr.Server/handler-registers-handler"}
+var stopEnumSystems = [...]string{"nbtns.Server/udp", "nbtns.UDPServer/udp", "nbtns.TCPServer/tcp", "llmnr.Server", "llmnr.Client", "llmnr.Server/handler-registers-handler", "nbtns.TCPServer/idle-connection"}
 
-func StopEnumSize() int64 { return int64(len(stopEnumSystems)) * 2 * stopEnumK }
+// systems 0..5 take part in the single-preemption enumeration
+const stopEnumN1 = 6
+
+func StopEnumSize() int64 { return stopEnumN1 * 2 * stopEnumK }
 
 func runStopEnum(w *rt.World, res *hx.Result, index int64) *hx.Violation {
 	k := int(index % stopEnumK)
 	m := 1 + int(index/stopEnumK%2)
-	sysIdx := int(index / (2 * stopEnumK) % int64(len(stopEnumSystems)))
+	sysIdx := int(index / (2 * stopEnumK) % stopEnumN1)
+	return stopEnumRun(w, res, sysIdx, m, k, 0)
+}
+
+// Two preemptions: the stopping task is released after exactly k statements of the system (k < 80: the windows right
+// behind accepting a connection / receiving a request / starting a loop) and is itself taken off the processor after
+// exactly j statements of Stop / Close (j = 1..14), until everybody else has run as far as they can; then it goes on.
+// This is the schedule in which a Stop that does its steps in the wrong order (signal last, close first, ...) shows.
+const (
+	stopEnum2K = 80
+	stopEnum2J = 14
+)
+
+var stopEnum2Systems = [...]int{0, 1, 2, 3, 4, 6}
+
+func StopEnum2Size() int64 { return int64(len(stopEnum2Systems)) * stopEnum2K * stopEnum2J }
+
+func runStopEnum2(w *rt.World, res *hx.Result, index int64) *hx.Violation {
+	j := 1 + int(index%stopEnum2J)
+	k := int(index / stopEnum2J % stopEnum2K)
+	sysIdx := stopEnum2Systems[int(index/(stopEnum2J*stopEnum2K))%len(stopEnum2Systems)]
+	return stopEnumRun(w, res, sysIdx, 1, k, j)
+}
+
+func stopEnumRun(w *rt.World, res *hx.Result, sysIdx, m, k, j int) *hx.Violation {
 	sysName := stopEnumSystems[sysIdx]
-	res.Sample = fmt.Sprintf("system=%s in-flight=%d stop-after-statements=%d", sysName, m, k)
+	res.Sample = fmt.Sprintf("system=%s in-flight=%d stop-after-statements=%d stopper-descheduled-after=%d", sysName, m, k, j)
 	res.NonTrivial = true
 	w.Quiet = true
 
@@ -45,13 +72,16 @@ func runStopEnum(w *rt.World, res *hx.Result, index int64) *hx.Violation {
 		if k > 0 {
 			placed = rt.AfterPoints(k, rt.Now()+1e9)
 		}
+		if j > 0 {
+			rt.StallAfter(j)
+		}
 		called.Set()
 	}
 	finish := func(stopper *rt.Task, what string, bound int64, extra ...*rt.Task) *hx.Violation {
 		called.Wait(-1)
 		if !joinWithin(stopper, bound) {
 			return &hx.Violation{Class: "stop_blocked", Key: sysName + "/stopenum",
-				Msg: fmt.Sprintf("%s, called after exactly %d statements of the system with %d request(s) in flight, had not returned %.0f simulated seconds later; the calling task is %s", what, k, m, float64(bound)/1e9, stopper.StateString())}
+				Msg: fmt.Sprintf("%s, called after exactly %d statements of the system with %d request(s) in flight (and itself descheduled after %d of its own statements, 0 = not), had not returned %.0f simulated seconds later; the calling task is %s", what, k, m, j, float64(bound)/1e9, stopper.StateString())}
 		}
 		for _, t := range extra {
 			if !joinWithin(t, bound) {
@@ -85,11 +115,12 @@ func runStopEnum(w *rt.World, res *hx.Result, index int64) *hx.Violation {
 	}
 
 	switch sysIdx {
-	case 0, 1, 2:
+	case 0, 1, 2, 6:
 		kind := 1
 		if sysIdx > 0 {
 			kind = 2
 		}
+		release := &rt.Flag{}
 		sys := startNB(kind)
 		if sys.err != nil {
 			return &hx.Violation{Class: "start_failed", Key: sysName, Msg: sys.err.Error()}
@@ -109,6 +140,17 @@ func runStopEnum(w *rt.World, res *hx.Result, index int64) *hx.Violation {
 				} else {
 					reqs[i] = buildRequest(idBase+uint16(i), 0, 0, []string{"STOPENUM"}, "", nil, 0, false)
 				}
+			}
+			if sysIdx == 6 {
+				// connects and says nothing: the connection is somewhere between Accept and the handler's read when
+				// Stop comes
+				c, err := simnet.Dial("tcp", serverHost+":137")
+				if err != nil {
+					return
+				}
+				release.Wait(-1)
+				c.Close()
+				return
 			}
 			if sysIdx == 2 {
 				c, err := simnet.Dial("tcp", serverHost+":137")
@@ -154,6 +196,7 @@ func runStopEnum(w *rt.World, res *hx.Result, index int64) *hx.Violation {
 			}
 		})
 		v := finish(stopper, "Stop()", nbStopBound)
+		release.Set()
 		rt.Join(client, -1)
 		if v != nil {
 			return v
